@@ -201,7 +201,7 @@ def _main(prop_id: str, args, seed: int, work: str, t0: float) -> int:
     rec.failures.clear()  # replay-stage failures are reported with their own path
 
     # ---------------- search stage -----------------
-    budget = float(os.environ.get("VERIF_BUDGET_S", DEFAULT_BUDGET[args.tier])) * max(1.0, args.scale if args.tier == "thorough" else 1.0)
+    budget = float(os.environ.get("VERIF_BUDGET_S", getattr(mod, "BUDGET", {}).get(args.tier, DEFAULT_BUDGET[args.tier]))) * max(1.0, args.scale if args.tier == "thorough" else 1.0)
     deadline = time.time() + budget
     _G.update(ctx=ctx, parts=parts, findings=findings, deadline=deadline)
     units = []
@@ -218,7 +218,8 @@ def _main(prop_id: str, args, seed: int, work: str, t0: float) -> int:
             nsh = max(1, min(nsh, n))
             for s in range(nsh):
                 units.append((pidx, s, nsh, 0))
-    # interleave so that long parts start early
+    # enumerations (targeted, deterministic items) first: when the time budget runs out it is the random search that is cut short
+    units.sort(key=lambda u: 0 if isinstance(parts[u[0]], EnumPart) else 1)
     if args.shards <= 1:
         results = [_run_unit(u) for u in units]
     else:
